@@ -49,14 +49,22 @@ InSegs(c, p, so) == (so * p.segComb - (p.segComb \div 2))..(so * p.segComb + (p.
 
 \* parameter sets that SSRB must refuse ("needs to be odd", "is too large", "too large number of
 \* tangential positions to trim", "needs to be at least 1")
+\* (beyond the property's sentences: the parameter contract.  "rebinned in_proj_data only upto this segment":
+\* when fewer than segComb \div 2 + 1 segments may be processed there is no complete group of segments, and the
+\* source announces "max_in_segment_num_to_process %d is too small. No output segments")
+TooFewSegments(c, p) == p.segComb >= 1 /\ p.segComb % 2 = 1 /\ p.maxSegArg <= c.maxSeg /\ EffMaxSeg(c, p) < p.segComb \div 2
 SSRBRefuses(c, p) ==
   \/ p.segComb % 2 = 0
   \/ p.maxSegArg > c.maxSeg
   \/ NumTang(c) <= p.trim
   \/ p.tofComb < 1
+  \/ TooFewSegments(c, p)
 \* legal parameter sets (the quantifier of the property)
 SSRBLegal(c, p) ==
-  /\ c.span % 2 = 1 /\ ~c.ge                 \* "cannot handle standard GE Advance data"
+  /\ ~c.ge                                   \* "cannot handle standard GE Advance data"
+  \* even spans (segment 0 has span + 1 ring differences, the others span): "can only handle in_proj_data_info where all
+  \* segments have identical 'num_segments_to_combine'": segments are kept (segComb = 1) or all go into segment 0
+  /\ (c.span % 2 = 0 => (p.segComb = 1 \/ OutMaxSeg(c, p) = 0))
   /\ p.segComb >= 1 /\ p.segComb % 2 = 1
   /\ p.maxSegArg >= -1 /\ p.maxSegArg <= c.maxSeg
   /\ EffMaxSeg(c, p) >= p.segComb \div 2      \* at least one output segment
@@ -93,7 +101,8 @@ SSRBGeom(c, p) ==
   LET oms == OutMaxSeg(c, p) IN
   \* span = number of ring differences of output segment 0 (= span * segComb unless the combined group is
   \* cut off by the maximum ring difference of the input, in which case segment 0 is the only output segment)
-  [N |-> c.N, R |-> c.R, span |-> OutMaxRD(c, p, 0) - OutMinRD(c, p, 0) + 1, ge |-> FALSE,
+  \* (even spans with the segments kept: the even span itself - its segment 0 has span + 1 ring differences)
+  [N |-> c.N, R |-> c.R, span |-> IF c.span % 2 = 0 /\ p.segComb = 1 THEN c.span ELSE OutMaxRD(c, p, 0) - OutMinRD(c, p, 0) + 1, ge |-> FALSE,
    maxDelta |-> SegMaxRD(c, oms * p.segComb + (p.segComb \div 2)),
    mash |-> c.mash * p.viewComb,
    tofMash |-> c.tofMash * p.tofComb, maxT |-> c.maxT,
